@@ -156,6 +156,17 @@ func walkAll(c *Ctx, rule string, fn *ssa.Function, visit func(p *Path)) bool {
 }
 
 func walkAllOpts(c *Ctx, rule string, fn *ssa.Function, opts PathOpts, visit func(p *Path)) bool {
+	n, complete := WalkPathsInl(fn, opts, func(p *Path) bool { visit(p); return true })
+	if !complete {
+		c.Undecided(rule, FuncName(fn), fmt.Sprintf("path bound exceeded after %d paths", n))
+		return false
+	}
+	return true
+}
+
+// WalkPathsInl is WalkPaths with the default inlining policy (localHelper) at the deepest
+// level whose path count stays within the bound.
+func WalkPathsInl(fn *ssa.Function, opts PathOpts, visit func(p *Path) bool) (int, bool) {
 	if opts.Inline == nil && !opts.NoInline {
 		opts.Inline = localHelper
 	}
@@ -174,12 +185,7 @@ func walkAllOpts(c *Ctx, rule string, fn *ssa.Function, opts PathOpts, visit fun
 			opts.Inline, opts.InlineDepth = nil, 0
 		}
 	}
-	n, complete := WalkPaths(fn, opts, func(p *Path) bool { visit(p); return true })
-	if !complete {
-		c.Undecided(rule, FuncName(fn), fmt.Sprintf("path bound exceeded after %d paths", n))
-		return false
-	}
-	return true
+	return WalkPaths(fn, opts, visit)
 }
 
 // firstFail collects the first failure per key.
